@@ -224,3 +224,19 @@ package filesystem
 //gvc:  opt frame args
 //gvc:  ensures cleared: c.cached == nil
 //gvc:end
+
+// packfileWriter (C18: an object is readable once the write that stored it has
+// returned, for every interleaving of writers on one storage). The Notify
+// callback of a pack writer publishes the new pack under the index lock
+// (ObjectStorage is a monitor on muI for packs and index): whenever the lock
+// is free, every pack the id map knows is in the ordered pack list the
+// lookups walk. A list prepared before the lock was taken may miss a pack
+// another writer has published since.
+//gvc:func (*ObjectStorage).packfileWriter
+//gvc:  props C18
+//gvc:  theory int
+//gvc:  opt coarse
+//gvc:  opt frame args
+//gvc:  monitor s invariant listed: forall(k, has(s.index, k) ==> exists(i, 0, len(s.packs), keyid(s.packs[i].h) == k))
+//gvc:  lit 1 requires writer != nil
+//gvc:end
